@@ -449,6 +449,10 @@ pub struct MapKeys {
 }
 
 impl MapKeys {
+    /// Whether these can be the keys of an array with some number of rows
+    pub(crate) fn fits_row_count(&self, row_count: usize) -> bool {
+        !self.fix_stack.is_empty() || self.len == row_count
+    }
     fn capacity(&self) -> usize {
         self.indices.len()
     }
